@@ -25,6 +25,10 @@ SrcPairSets == {{<<<<"S", "src">>, i>>, <<<<"C", "src">>, j>>, <<<<"S", a>>, k>>
                   i \in {x \in Pool : x.n \in {"i1a", "i2"}}, j \in {x \in Pool : x.n \in {"i1a", "i2"}},
                   k \in {x \in Pool : x.n \in {"i1a2", "i2"}}, l \in {x \in Pool : x.n \in {"i1a2", "i1b"}},
                   a \in {"x86_64", "i386"}, b \in {"x86_64", "i386"}}
+\* two source images of one variant next to two binary arches (every one of them goes under each arch)
+SrcTwoSets == {{<<<<"S", "src">>, i>>, <<<<"S", "src">>, j>>, <<<<"S", "x86_64">>, k>>, <<<<"S", "i386">>, l>>} :
+                 i \in {x \in Pool : x.n = "i1a"}, j \in {x \in Pool : x.n = "i2"},
+                 k \in {x \in Pool : x.n \in {"i1a2", "i2"}}, l \in {x \in Pool : x.n \in {"i1a2", "i1b"}}}
 \* small per-arch documents for merging: a src image next to one binary arch of the same variant
 MergeSets == {{<<<<"S", "src">>, i>>, <<<<"S", a>>, k>>} : i \in Pool, k \in Pool, a \in {"x86_64", "i386"}}
 Key(c) == c[1] \o "/" \o c[2]
@@ -42,7 +46,7 @@ VerStep == \E ver \in {100, 101, 200} :      \* 200 = "2.0": above 1.1 with mino
              /\ M!SetVersion(ver)
              /\ hist' = Append(hist, [op |-> "setversion", ver |-> ver, out |-> "ok"])
 DumpStep == M!Dump /\ hist' = Append(hist, [op |-> "dump", out |-> "ok"])
-LoadStep == \E S \in (IF Mode = "merge" THEN MergeSets ELSE PairSets \cup SrcPairSets), ver \in {100, 101, 102, 200} :
+LoadStep == \E S \in (IF Mode = "merge" THEN MergeSets ELSE PairSets \cup SrcPairSets \cup SrcTwoSets), ver \in {100, 101, 102, 200} :
              /\ M!Load(DocOf(S), ver)
              /\ hist' = Append(hist, [op |-> "load", ver |-> ver, doc |-> CellsJson(DocOf(S)), out |-> out'])
 MergeStep == \E S \in MergeSets, ver \in {100, 101, 102} :
